@@ -214,8 +214,12 @@ Definition string_merge (wt : wire_type) : M val :=
   let+ v := bytes_merge_one_copy wt in
   if utf8_valid (vbytes v) then ret v else fail PUtf8.
 
-(* faststr::merge: merge_one_copy into Bytes, FastStr::from_bytes_unchecked *)
-Definition faststr_merge (wt : wire_type) : M val := bytes_merge_one_copy wt.
+(* faststr::merge: merge_one_copy into Bytes, then FastStr::from_bytes (checked: str::from_utf8 over the bytes; an invalid
+   sequence is "invalid string value: data is not UTF-8 encoded" -- the repair of finding F-10b; before it the bytes went
+   through from_bytes_unchecked).  tools/extract_pb.py pins the body (faststr_validates). *)
+Definition faststr_merge (wt : wire_type) : M val :=
+  let+ v := bytes_merge_one_copy wt in
+  if utf8_valid (vbytes v) then ret v else fail PUtf8.
 
 (* <module>::merge(wire_type, value, buf, ctx): the new content of *value *)
 Definition merge_scalar (m : codec_module) (wt : wire_type) : M val :=
@@ -302,8 +306,8 @@ Definition mod_value_okb (m : codec_module) (v : val) : bool :=
   | (MInt64 | MSInt64 | MSFixed64), VI z => in_sb 64 z
   | (MUInt32 | MFixed32 | MFloat), VI z => (0 <=? z) && (z <? two32)
   | (MUInt64 | MFixed64 | MDouble), VI z => (0 <=? z) && (z <? two64)
-  | MString, VB l => (zlen l <? two64) && utf8_valid l
-  | (MFastStr | MBytes), VB l => zlen l <? two64
+  | (MString | MFastStr), VB l => (zlen l <? two64) && utf8_valid l
+  | MBytes, VB l => zlen l <? two64
   | _, _ => false
   end.
 
